@@ -158,6 +158,19 @@ def str_method(I, recv, k, name, args, kwargs):
         return Sym(k, UF_REPLACE(s, need_str(a[0]), need_str(a[1])))
     if name in ('strip', 'lstrip', 'rstrip'):
         chars = a[0] if a and a[0] is not None else WS
+        if isinstance(chars, str) and len(chars) == 1 and name in ('rstrip', 'lstrip'):
+            # exact: the unique decomposition  s == r ++ t (rstrip) / t ++ r (lstrip), t in c*, r not ending/starting with c
+            r = p.fresh(k, name + '_kept')
+            t = p.fresh(k, name + '_cut')
+            c = mk_str(chars)
+            p.assume(z3.InRe(t.t, z3.Star(z3.Re(c))))
+            if name == 'rstrip':
+                p.assume(s == z3.Concat(r.t, t.t))
+                p.assume(z3.Not(z3.SuffixOf(c, r.t)))
+            else:
+                p.assume(s == z3.Concat(t.t, r.t))
+                p.assume(z3.Not(z3.PrefixOf(c, r.t)))
+            return r
         uf = {'strip': UF_STRIP, 'lstrip': UF_LSTRIP, 'rstrip': UF_RSTRIP}[name]
         _note(p, 'str.' + name)
         return Sym(k, uf(s, need_str(chars)))
@@ -370,6 +383,10 @@ def py_str(I, v=''):
         return Sym('str', z3.Concat(z3.StringVal('-'), z3.IntToStr(-v.t)))
     if isinstance(v, Opaque):
         return v
+    if isinstance(v, Obj):
+        m = I.p.engine.models.get(('method', v.cls, '__str__'))
+        if m is not None:
+            return m.fn(I, [v], {})
     if isinstance(v, (Obj, ExcVal)):
         return Opaque('str(obj)')
     if is_sym(v):
@@ -383,6 +400,10 @@ def py_bool(I, v=False):
 
 
 def py_int(I, v=0, base=10):
+    if isinstance(v, Obj):
+        m = I.p.engine.models.get(('method', v.cls, '__int__'))
+        if m is not None:
+            return m.fn(I, [v], {})
     if isinstance(v, Sym) and v.kind == 'int':
         return v
     if isinstance(v, Sym) and v.kind == 'bool':
